@@ -158,3 +158,16 @@ def c12(run):
     run.validate("Trace_PartialMerkle", trace)
     return finish(run, assumptions=MERKLE_ASSUME,
                   extra_cov={"exhaustive_scope": "transaction count <= %s, hashes over 3 atoms, flag strings of 0..2 bytes: every equivalence class of messages reached by the lazily-chosen extraction machine" % maxn})
+
+
+# --------------------------------------------------------------------------- C10
+@prop("C10", "Trace_TxFilter")
+def c10(run):
+    run.build()
+    run.mc("MC_Bloom")
+    trace, _ = run.exec("C10")
+    run.validate("Trace_TxFilter", trace)
+    return finish(run, assumptions=BLOOM_ASSUME + [
+        "data pushes and script classes are environment facts (bchd txscript.PushedData / GetScriptClass); for unparsable scripts the pushes before the error come from the harness' own tokenizer",
+        "named deviations: an unparsable script may contribute nothing or its leading pushes; an empty push may be tested or skipped",
+        "block scan contract: Lower (least fixpoint of relevance under exact-set semantics of the inserted items) <= reported <= Upper (what the final filter bits match)"])
